@@ -20,26 +20,30 @@ Definition corr (c : case) : bool :=
 
 (* the property: the observed outputs are those of the bounded-stream
    specification (sweeps as scheduled, or expiry effective immediately),
-   for operation sequences inside the stated domain *)
+   for operation sequences inside the stated domain: since offsets that do
+   not wrap, and per-channel deadlines that never move earlier (see
+   Model/MemStream.v, mono_ok) *)
+Definition in_domain (c : case) : bool :=
+  ops_ok (c_ops c) && run_mono (hub_init (c_now c) (c_meta c)) (c_ops c).
+
 Definition oracle (c : case) : bool :=
-  negb (ops_ok (c_ops c)) ||
+  negb (in_domain c) ||
   outs_eqb (snd (sp_run (spec_init (c_now c) (c_meta c)) (c_ops c))) (c_obs c) ||
   outs_eqb (sp_run_eager (spec_init (c_now c) (c_meta c)) (c_ops c)) (c_obs c).
 
 Definition SpecBehaviour (now meta : N) (ops : list op) (obs : list out) : Prop :=
-  ops_ok ops = true ->
+  ops_ok ops = true -> run_mono (hub_init now meta) ops = true ->
   obs = snd (sp_run (spec_init now meta) ops) \/ obs = sp_run_eager (spec_init now meta) ops.
 
 Lemma oracle_sound : forall c,
   oracle c = true <-> SpecBehaviour (c_now c) (c_meta c) (c_ops c) (c_obs c).
 Proof.
-  intros c. unfold oracle, SpecBehaviour.
+  intros c. unfold oracle, SpecBehaviour, in_domain.
   rewrite !orb_true_iff, negb_true_iff, !outs_eqb_eq.
-  destruct (ops_ok (c_ops c)); split; intros H.
-  - intros _. destruct H as [[H|H]|H]; [discriminate|left|right]; auto.
-  - destruct (H eq_refl) as [E|E]; [left; right|right]; auto.
-  - intros X; discriminate.
-  - left; left; reflexivity.
+  destruct (ops_ok (c_ops c)); destruct (run_mono (hub_init (c_now c) (c_meta c)) (c_ops c));
+    cbn [andb]; split; intros H; try (intros; discriminate); try (left; left; reflexivity).
+  - intros _ _. destruct H as [[H|H]|H]; [discriminate|left|right]; auto.
+  - destruct (H eq_refl eq_refl) as [E|E]; [left; right|right]; auto.
 Qed.
 
 Definition run (cs : list case) := failing corr oracle cs.
